@@ -333,14 +333,14 @@ def maxValue (bit : Nat) : Nat := if bit ≥ 64 then 2 ^ 63 - 1 else 2 ^ (bit - 
     `us` = the spelling contains `u`/`U`; `longs` = number of `l`/`L` in the suffix (0, 1, 2);
     `value` = `MathLib::toBigUNumber(tokStr)`.
     The code tests `isIntValue(unsignedSuffix ? value >> 1 : value)` and, for non-decimal spellings,
-    `isIntValue(value >> 2)` (sic: `>> 2`, which admits values up to `4*imax+3`, twice `UINT_MAX`). -/
+    `isIntValue(value >> 1)` (since /repo commit a4b8285; the pinned code had `>> 2`, which admitted twice `UINT_MAX`). -/
 def litTypeCore (imax lmax llmax : Nat) (dec us : Bool) (longs value : Nat) : VT :=
   let sign0 : Sign := if us then .unsigned else .signed
   let v1 := if us then value >>> 1 else value
   if longs = 0 ∧ v1 ≤ imax then ⟨.int, sign0⟩
-  else if longs = 0 ∧ dec = false ∧ value >>> 2 ≤ imax then ⟨.int, .unsigned⟩
+  else if longs = 0 ∧ dec = false ∧ value >>> 1 ≤ imax then ⟨.int, .unsigned⟩
   else if longs ≤ 1 ∧ v1 ≤ lmax then ⟨.long, sign0⟩
-  else if longs ≤ 1 ∧ dec = false ∧ value >>> 2 ≤ lmax then ⟨.long, .unsigned⟩
+  else if longs ≤ 1 ∧ dec = false ∧ value >>> 1 ≤ lmax then ⟨.long, .unsigned⟩
   else if v1 ≤ llmax then ⟨.llong, sign0⟩
   else ⟨.llong, .unsigned⟩
 
